@@ -178,8 +178,10 @@ pub fn table_factory(dir: &str, tier: &str, seed: u64, per: usize) -> (usize, u6
                     }
                 }
             }
-            for v in (r.below(3) as i64..16384).step_by(3) {
-                w.push(&factory_row(6, imp, [r.below(16) as i64, v, 0, 0]));
+            // every 14-bit value once (on a seeded channel)
+            let ch = r.below(16) as i64;
+            for v in 0..16384 {
+                w.push(&factory_row(6, imp, [ch, v, 0, 0]));
                 w.push(&factory_row(9, imp, [v, 0, 0, 0]));
             }
         }
